@@ -160,13 +160,25 @@ func (c vhNetClient) GossipTrx(ctx context.Context, in *protobufcompiled.TrxMsgG
 	return c.net.nodes[c.to].GossipTrx(ctx, vhCopyTrxMsg(in))
 }
 
-// originateTrx: what runTransactionGossipProcess does with a transaction the notary accepted.
+type vhPipe struct {
+	trx chan *protobufcompiled.Transaction
+	vrx chan *accountant.Vertex
+}
+
+func (p vhPipe) SubscribeToTrx() <-chan *protobufcompiled.Transaction { return p.trx }
+func (p vhPipe) SubscribeToVrx() <-chan *accountant.Vertex             { return p.vrx }
+
+// originateTrx: the notary hands an accepted transaction to the pipe; the REAL runTransactionGossipProcess of
+// the origin node picks it up, signs it and gossips it.
 func (net *vhNet) originateTrx(o int, tx *protobufcompiled.Transaction) {
 	g := net.nodes[o]
-	digest, signature := g.signer.Sign(createGossiperMessageToSign(g.signer.Address(), [32]byte(tx.Hash)))
-	me := &protobufcompiled.Gossiper{Address: g.signer.Address(), Digest: digest[:], Signature: signature}
-	tg := &protobufcompiled.TrxMsgGossip{Trx: tx, Gossipers: []*protobufcompiled.Gossiper{me}}
-	g.gossipTransaction(context.Background(), tg, map[string]*protobufcompiled.Gossiper{g.signer.Address(): me})
+	pipe := vhPipe{trx: make(chan *protobufcompiled.Transaction, 1), vrx: make(chan *accountant.Vertex)}
+	g.piper = pipe
+	ctx, cancel := context.WithCancel(context.Background())
+	go g.runTransactionGossipProcess(ctx)
+	pipe.trx <- tx
+	verifrt.Settle() // the origin's gossip loop takes the transaction and starts one goroutine per peer; delivery order is the scheduler's
+	cancel()
 }
 
 func (net *vhNet) vhTrxChecks(o int, where string) {
